@@ -125,11 +125,16 @@ package engine
 //@   modifies en.ca
 //@   ensures @mem result == nil ==> vm.memOk(en.ca) && vm.memWf(en.ca) && (old(en.ca) != nil ==> en.ca == old(en.ca))
 //@   ensures @new old(en.ca) == nil ==> result == nil && vm.levels(en.ca) == 1 && vm.cac(en.ca).CacheSize == en.cfg.CacheSize
+// Ghost snapshot: whether the session this engine was set up with (loaded from
+// the persister, supplied, or new) had TERMINATE set at that moment. It is what
+// "stays blocked" refers to on the first request of a fresh engine (C20).
+//@ gstate loadedTerm(e int) bool
 //@ func (*DefaultEngine).ensurePersist
 //@   assumed
 //@   requires en != nil
-//@   modifies en.st, en.ca, en.pe
+//@   modifies en.st, en.ca, en.pe, loadedTerm[refOf(en)]
 //@   ensures result == nil ==> beforeVm(en)
+//@   ensures result == nil ==> loadedTerm(refOf(en)) == state.flag(en.st, state.FLAG_TERMINATE)
 
 // The optional entry function runs in a throw-away VM that shares the
 // session's state and cache. While TERMINATE is set the entry function is not
@@ -149,6 +154,7 @@ package engine
 //@   ensures[C07] @lastkept result0 && result1 == nil ==> vm.cac(en.ca).LastValue == old(vm.cac(en.ca).LastValue)
 //@   postulate result1 == nil ==> engOk(en)
 //@   ensures @nofirst en.first == nil ==> result0 && result1 == nil
+//@   ensures @nofirstkept en.first == nil ==> fl(en, state.FLAG_TERMINATE) == old(fl(en, state.FLAG_TERMINATE)) && loadedTerm(refOf(en)) == old(loadedTerm(refOf(en)))
 //@   ensures[C06] @blocked old(fl(en, state.FLAG_TERMINATE)) ==> count(extcalls) == old(count(extcalls)) && count(codegets) == old(count(codegets))
 //@   ensures[C06] @held en.first != nil && old(fl(en, state.FLAG_TERMINATE)) ==> fl(en, state.FLAG_TERMINATE)
 
@@ -177,6 +183,7 @@ package engine
 //@   ensures @nocalls !old(en.execd) ==> count(extcalls) == old(count(extcalls)) && count(codegets) == old(count(codegets)) && count(written) == old(count(written))
 //@   ensures @ready result == nil ==> engOk(en)
 //@   ensures @alloc !old(en.initd) && result == nil ==> allocated(en.st) && allocated(en.st.Flags)
+//@   ensures @loaded !old(en.initd) && result == nil ==> loadedTerm(refOf(en)) == fl(en, state.FLAG_TERMINATE)
 //@   ensures[C07] @forgotten result == nil ==> !en.execd && len(en.exit) == 0 && !en.exiting
 //@   ensures @same old(en.initd) ==> en.st == old(en.st) && en.ca == old(en.ca) && en.vm == old(en.vm) && en.pe == old(en.pe)
 //@   ensures[C17] @idle old(idle(en)) ==> result == nil && sessionKept(en)
@@ -186,7 +193,7 @@ package engine
 // configuration and the persister through the assumed contracts above, entry
 // function, move to the start node) and for every later request.
 //@ func (*DefaultEngine).init
-//@   serves C17, C07
+//@   serves C17, C07, C20
 //@   requires en != nil && en.rs != nil && (en.initd ==> engOk(en)) && (!en.initd ==> !en.execd)
 //@   premise len(en.cfg.Root) <= 255
 // the request's input buffer is not the session's flag array (the state may only exist after setup)
@@ -198,6 +205,8 @@ package engine
 //@   ensures[C08] @lockstep result1 == nil ==> vm.lockstep(en.vm)
 //@   ensures[C07] @forgotten result1 == nil && result0 ==> !en.execd && len(en.exit) == 0 && !en.exiting
 //@   ensures[C17] @idle old(idle(en)) ==> result0 && result1 == nil && sessionKept(en)
+// setting up a fresh engine on a blocked session does not unblock it (C20; with an entry function: known finding H24)
+//@   ensures[C20] @blockedkept !old(en.initd) && en.first == nil && result1 == nil ==> fl(en, state.FLAG_TERMINATE) == loadedTerm(refOf(en))
 // a first request (every request of an engine-per-request deployment) with over-long input is refused before the entry function runs
 //@   ensures[C17] @toolong !old(en.initd) && len(input) > 255 ==> result1 != nil
 //@   ensures[C17] @toolongcalls !old(en.initd) && len(input) > 255 ==> count(extcalls) == old(count(extcalls))
